@@ -94,6 +94,7 @@ def extract(path):
     for name, item in sorted(by_name.items()):
         st = item["inner"]["struct"]
         kind = st["kind"]
+        gen_params = [(p["name"], "lifetime" if "lifetime" in p["kind"] else "type") for p in st["generics"]["params"]]
         sealed[name] = bool(kind.get("plain", {}).get("has_stripped_fields")) or ("plain" in kind and not kind["plain"]["fields"])
         # impls listed on the struct + impls for &T / &mut T (IntoIterator)
         impl_ids = list(st["impls"])
@@ -115,7 +116,8 @@ def extract(path):
                         bs = [b["trait_bound"]["trait"]["path"].split("::")[-1] for b in bp["bounds"] if "trait_bound" in b]
                         bounds.setdefault(bp["type"]["generic"], [])
                         bounds[bp["type"]["generic"]] += [b for b in bs if b in ("Send", "Sync")]
-                markers.append(dict(ty=name, marker=trait, bounds=bounds, synthetic=I["is_synthetic"], negative=I["is_negative"]))
+                markers.append(dict(ty=name, marker=trait, bounds=bounds, synthetic=I["is_synthetic"], negative=I["is_negative"],
+                                    params=gen_params))
                 continue
             if I["is_synthetic"] or I["blanket_impl"]:
                 continue
